@@ -23,6 +23,7 @@ import (
 	"math"
 	"os"
 	"path/filepath"
+	"strconv"
 	"strings"
 	"sync"
 	"time"
@@ -1072,20 +1073,35 @@ func getActiveBaseDirVTable(virtualTableName string) string {
 	return basedir
 }
 
-func DeleteVirtualTableSegStore(virtualTableName string) {
+// DeleteVirtualTableSegStore drops the open segment stores and the stream
+// directories of the given org's index. Another org can have an index of the same
+// name; its stores and directories are left alone.
+func DeleteVirtualTableSegStore(virtualTableName string, orgid int64) {
 	allSegStoresLock.Lock()
 	for streamid, segstore := range allSegStores {
-		if segstore.VirtualTableName == virtualTableName {
+		if segstore.VirtualTableName == virtualTableName && segstore.OrgId == orgid {
 			delete(allSegStores, streamid)
 		}
 	}
 	activedir := getActiveBaseDirVTable(virtualTableName)
-	os.RemoveAll(activedir)
+	// stream directories are named <shard>-<orgid>-<hash of the index name>
+	orgPart := strconv.FormatInt(orgid, 10)
+	if entries, err := os.ReadDir(activedir); err == nil {
+		for _, entry := range entries {
+			parts := strings.SplitN(entry.Name(), "-", 3)
+			if len(parts) == 3 && parts[1] == orgPart {
+				os.RemoveAll(filepath.Join(activedir, entry.Name()))
+			}
+		}
+	}
+	// only succeeds once no org has anything left under this index name
+	_ = os.Remove(activedir)
 	allSegStoresLock.Unlock()
 }
 
-func DeleteSegmentsForIndex(indexName string) {
-	removeSegmentsByIndexOrSegkeys(nil, indexName)
+func DeleteSegmentsForIndex(indexName string, orgid int64) {
+	segbaseDirs := removeSegmetasOfOrg(nil, indexName, &orgid)
+	RemoveSegBasedirs(segbaseDirs)
 }
 
 func RemoveSegMetas(segmentsToDelete map[string]*structs.SegMeta) map[string]struct{} {
